@@ -169,6 +169,11 @@ Example ex_client_sock_fault_not_reached :
   client_summary 2 (Some (mkFault SSock 0)) = (Started, 0, 2, 2, 4, 2).
 Proof. vm_compute. reflexivity. Qed.
 
+(* nor are listener options applied: an SOpt fault is never reached either *)
+Example ex_client_opt_fault_not_reached :
+  client_summary 2 (Some (mkFault SOpt 0)) = (Started, 0, 2, 2, 4, 2).
+Proof. vm_compute. reflexivity. Qed.
+
 Print Assumptions client_no_leak.
 Print Assumptions client_closes_once.
 Print Assumptions client_no_dup_closes.
